@@ -258,6 +258,11 @@ FACTORIES = [
     ('trailing-comment-blank-line', lambda: P.trailing_comment([1, 2], '\n    text\n    ')),
     ('trailing-comment-blank-lines', lambda: P.trailing_comment({'a': 1}, ' \n\t\nwords here\n \n  ')),
     ('dict-key-comment-blank', lambda: {P.comment('k', ' \n x'): 1, 'j': P.comment(2, '\n')}),
+    # several wrappers of one kind stacked on one value (the innermost text is the one shown - every time)
+    ('comment-on-comment', lambda: [P.comment(P.comment(1, 'inner'), 'outer'), 2]),
+    ('comment-on-comment-top', lambda: P.comment(P.comment({'k': 'v'}, 'inner'), 'outer')),
+    ('trailing-on-trailing', lambda: P.trailing_comment(P.trailing_comment([1, 2], 'inner'), 'outer')),
+    ('three-comments-in-call', lambda: collections.ChainMap(P.comment(P.comment(P.comment({'a': 1}, 'one'), 'two'), 'three'))),
     ('comment-wrapped', lambda: WithSettings([P.comment(1, 'the first element of this list is one'), 2], width=30)),
     ('comment-wrapped-dict', lambda: WithSettings({'k': P.comment([1, 2], 'a comment of several words that has to wrap here')}, width=24)),
     ('shape-plain', lambda: Shape('circle')),
